@@ -4,7 +4,8 @@
     There is no [Extract Constant] and no [Extract Inductive] of our own. *)
 Require Extraction.
 Require ExtrOcamlBasic.
-From Sameold Require Import Base.Bytes Model.Header Model.Combiner Model.IssueTime Model.Events.
+From Sameold Require Import Base.Bytes Model.Header Model.Combiner Model.IssueTime Model.Events
+  Model.Framer Model.Squelch Model.Assembler Model.Receiver.
 Extraction Language OCaml.
 Set Extraction KeepSingleton.
 Extraction "Extract/model.ml"
@@ -21,4 +22,9 @@ Extraction "Extract/model.ml"
   Events.event_from Events.event_display Events.event_is_test Events.event_is_unrecognized
   Events.phen_is_national Events.phen_is_weather Events.phen_brief Events.sig_as_u8 Events.sig_name
   Events.sig_display_str Events.sig_code_str Events.sig_from
-  Events.originator_from_org_and_call Events.is_national.
+  Events.originator_from_org_and_call Events.is_national
+  Framer.framer_input Framer.framer_end Framer.framer_state Framer.message_prefix_errors
+  Squelch.sq_input Squelch.sq_init Squelch.sq_end Squelch.sq_set_lock
+  Assembler.asm_init Assembler.asm_assemble Assembler.asm_idle
+  Receiver.rx_init Receiver.step_item Receiver.uses_eq Receiver.skip Receiver.pop_event
+  Receiver.process Receiver.run_all.
